@@ -12,9 +12,14 @@ META = {
                   "two-endpoint machine (request/reply frames with sequence numbers, re-entrant serving while waiting, idle serving loop) reaches a quiescent state whose result and "
                   "invocation log are those of the one-process evaluation; EVERY execution that delivers a result delivers that one (at most one peer can move at any time and its "
                   "move is determined), and no execution deadlocks or diverges before the result. The theorem is named _partial because values are naturals in the model: that "
-                  "arguments/results of every shape cross unchanged or as references is C03/C04 plus this check's differential run over real connections.",
+                  "arguments/results of every shape cross unchanged or as references is C03/C04 plus this check's differential run over real connections. Also outside the "
+                  "model: exceptions have ONE class there and call sites catch everything or nothing; class-selective catching and user-defined exception classes are run "
+                  "differentially only (second harness phase: three exception classes incl. a user-defined subclass, call sites catching all / ValueError / KeyError / nothing, results "
+                  "that are ints, tuples mixing a value with a mutable list and a callable, bare callables, bare lists - the caller uses every part): under the default configuration "
+                  "a user-defined class is not reproduced (C09's gating), which is known finding F46 for this property; with the switches on the runs agree.",
     "level_note": "Trusted: Coq kernel, pygen (call-path facts), extraction+driver, harness (single-thread pumping of two real Connections; when a connection is re-entered while it "
-                  "waits, its frame is dispatched on the waiting stack as its own serve loop would). Multi-threaded callers are C13, timeouts C15.",
+                  "waits, its frame is dispatched on the waiting stack as its own serve loop would). Multi-threaded callers are C13, timeouts C15. Depth is bounded by the interpreter stack in the real code (each remote hop costs frames): ping-pong depth ~120 works, "
+                  "200 raises RecursionError remotely; the theorems speak of the protocol, the harness stays far below that bound.",
     "technique": "Coq proof by induction on call trees (frame lemma generalised over the stack context) + token invariant giving determinism of all executions; differential execution local / two real connections / extracted machine",
     "gen": ["calls"],
     "shapes": ["calls.*", "protocol.Connection.sync_request", "protocol.Connection.async_request", "protocol.Connection._handle_call", "protocol.Connection._handle_callattr"],
@@ -189,6 +194,126 @@ def run_remote(root):
     return out, w
 
 
+
+# ------------------------------------------------------------------------------------------------ phase 2: exception classes, selective catching, result shapes
+EXC = {"ValueError": ValueError, "KeyError": KeyError, "NodeError": NodeError}      # NodeError: a user-defined subclass of ValueError
+CATCH = {"all": Exception, "ValueError": ValueError, "KeyError": KeyError}
+CUSTOM_OK = {"import_custom_exceptions": True, "instantiate_custom_exceptions": True, "instantiate_oldstyle_exceptions": True}
+
+
+def gen_tree2(r, depth, counter, side=None):
+    counter[0] += 1
+    nid = counter[0]
+    side = r.choice("AB") if side is None else side
+    kids = []
+    if depth > 0:
+        for _ in range(r.choice([0, 1, 1, 2, 2, 3])):
+            kids.append([gen_tree2(r, depth - r.choice([1, 1, 2]), counter), r.choice([None, None, "all", "ValueError", "ValueError", "KeyError"])])
+    return {"side": side, "id": nid, "kids": kids, "raises": r.choice([None, None, None, "ValueError", "KeyError", "NodeError", "NodeError"]),
+            "shape": r.choice(["int", "mixed", "mixed", "callable", "list"])}
+
+
+def has_custom(t):
+    return t["raises"] == "NodeError" or any(has_custom(k) for k, _ in t["kids"])
+
+
+def run_tree2(root, remote, cfg_extra):
+    """one executor for both runs: a child on the other side is called through the connection when `remote`, directly otherwise.
+    A node returns a result whose SHAPE varies: an int, a tuple mixing a value with a mutable list (a reference) and a callable, a bare
+    callable, a bare list; the caller uses every part (reads the value, appends to the list, calls the callable) and the callee keeps its
+    list, so a copy where a reference was due shows in the callee's kept objects."""
+    log, kept = [], {}
+    trees, ends = {}, {}
+
+    def index(t):
+        trees[t["id"]] = t
+        for k, _ in t["kids"]:
+            index(k)
+    index(root)
+
+    def result_of(t, acc):
+        lst = [t["id"]]
+        kept[t["id"]] = lst
+        fn = (lambda z, i=t["id"]: z * 2 + i)
+        return {"int": t["id"] + acc, "mixed": (t["id"] + acc, lst, fn), "callable": (lambda z, v=t["id"] + acc: v + 0 * z), "list": [t["id"] + acc]}[t["shape"]]
+
+    def use(k, v, me):
+        """what the caller does with the child's result; returns the number it adds to its accumulator"""
+        sh = k["shape"]
+        if sh == "int":
+            return v
+        if sh == "mixed":
+            v[1].append(("seen-by", me))
+            return v[0] + (v[2](1) - 2 - k["id"])
+        if sh == "callable":
+            return v(7)
+        v.append(("seen-by", me))
+        return v[0]
+
+    def run(t, side):
+        log.append(t["id"])
+        acc = 0
+        for k, catch in t["kids"]:
+            try:
+                v = run(k, side) if (k["side"] == side or not remote) else ends[side].root.run(k["id"])
+                acc += use(k, v, t["id"])
+            except Exception as e:
+                if catch is None or not isinstance(e, CATCH[catch]):
+                    raise
+                log.append(("caught", t["id"], k["id"]))
+        if t["raises"]:
+            raise EXC[t["raises"]](t["id"])
+        return result_of(t, acc)
+
+    def final(v, t):
+        sh = t["shape"]
+        return ("value", sh, v if sh == "int" else (v[0], list(v[1])) if sh == "mixed" else v(7) if sh == "callable" else list(v))
+
+    ca = None
+    try:
+        if remote:
+            def make_service(side):
+                class Svc(rpyc.Service):
+                    def exposed_run(self, nid):
+                        return run(trees[nid], side)
+                return Svc()
+            cfg = dict({"allow_public_attrs": True, "sync_request_timeout": 10}, **cfg_extra)
+            ca, cb, _, _ = connect_pair(make_service("A"), make_service("B"), cfg, cfg)
+            ends["A"], ends["B"] = ca, cb
+        try:
+            out = final(run(root, "A"), root)
+        except Exception as e:
+            out = ("exc", isinstance(e, ValueError), isinstance(e, KeyError), tuple(e.args))
+        return out, log, {k: list(v) for k, v in kept.items()}
+    finally:
+        if ca is not None:
+            try:
+                ca.close()
+            except Exception:
+                pass
+
+
+def exception_phase(ctx, n):
+    r = ctx.rng
+    for i in range(n):
+        root = gen_tree2(r, r.choice([1, 2, 3, 4] if ctx.quick else [2, 3, 4, 5, 6]), [0], side="A")
+        lo = run_tree2(root, False, {})
+        for mode, extra in (("default", {}), ("custom-allowed", CUSTOM_OK)):
+            ro = run_tree2(root, True, extra)
+            cross = any(True for _ in _cross(root))
+            ctx.case(("tree2", mode, repr(root)), nontrivial=cross, sample={"mode": mode, "local": repr(lo[0])[:80], "remote": repr(ro[0])[:80], "custom": has_custom(root)})
+            ctx.count("exceptions:" + mode + (":custom-class" if has_custom(root) else ":builtin-only"))
+            if ro == lo:
+                continue
+            case = {"tree2": root, "mode": mode}
+            which = "result" if ro[0] != lo[0] else ("invocations-or-catches" if ro[1] != lo[1] else "callee-kept-objects")
+            if mode == "default" and has_custom(root):
+                ctx.violation("custom-exception-class-lost:default-config", case, observed=repr(ro)[:300], expected=repr(lo)[:300],
+                              what="a user-defined exception class raised on one peer is not caught by `except <its base class>` on the other under the default configuration (%s differ)" % which)
+            else:
+                ctx.violation("distributed-differs-from-local:" + which, case, observed=repr(ro)[:300], expected=repr(lo)[:300],
+                              what="exception classes / selective catching / result shapes: the two-peer run differs from the one-process run (%s)" % which)
+
 def run(ctx):
     model = C.Model("calltree"); model = model if model.available() else None
     r = ctx.rng
@@ -221,6 +346,7 @@ def run(ctx):
             ctx.violation("argument-shape-differs", case, observed=repr(bad)[:300], expected="equal", what="a callee saw different arguments (value, reference content or keywords) than in the local run")
         if model:
             mcases.append([20 * size_of(root) + 50, depth_of(root) + 2, tree_sx(root)]); meta.append((root, lo, lw))
+    exception_phase(ctx, 150 if ctx.quick else 4000)
     if model and mcases:
         outs = model.batch(mcases)
         for (root, lo, lw), m in zip(meta, outs):
@@ -241,6 +367,15 @@ def _cross(t):
 
 
 def replay(ctx, rep):
+    if "tree2" in rep["case"]:
+        root, mode = rep["case"]["tree2"], rep["case"]["mode"]
+        lo = run_tree2(root, False, {})
+        ro = run_tree2(root, True, CUSTOM_OK if mode == "custom-allowed" else {})
+        ctx.case(("replay2", repr(root)), True)
+        if ro != lo:
+            sig = "custom-exception-class-lost:default-config" if (mode == "default" and has_custom(root)) else "distributed-differs-from-local:replay"
+            ctx.violation(sig, rep["case"], observed=repr(ro)[:300], expected=repr(lo)[:300], what="the two-peer run differs from the one-process run")
+        return
     root = rep["case"]["tree"]
 
     def fix(t):
